@@ -263,6 +263,10 @@ func checkC03(p *Prog, r *Report) {
 		Required: map[string]string{"client.address": "=ClientFeature.Address()", "server.feature": "=ServerFeature"}})
 	applyRetain(p, r, "R6", "spine", "BindingManager", "RemoveBindingsForEntity", retainSpec{Field: F("BindingManager.bindingEntries"),
 		Required: map[string]string{"client.device": "ClientFeature.Device().Ski()|ClientFeature.Address().Device", "client.entity": "ClientFeature.Address().Entity"}})
+	r.Rule("R9", "authorisation follows the registry at once: every read-modify-write of the binding list reads and stores inside one critical section (an unbind or bind processed meanwhile is not overwritten by a stale list; shared with C09-R7)")
+	rebuildAtomic(p, BuildLockset(p, "spine", "model"), r, "R9", F("BindingManager.bindingEntries"), 3)
+	r.Rule("R10", "the per-feature listing behind the binding gate filters on the whole server feature address (device, entity and feature): a binding on one local feature never authorises another (shared with C09-R5)")
+	listingRule(p, r, "R10", bindMgr)
 	r.Assumes("loops are unrolled at most once; the inbound datagram is abstracted to classifier x ackRequest x approval callbacks",
 		"HasLocalFeatureRemoteBinding itself is checked by C09-R6; registry contents are not interpreted")
 }
